@@ -175,6 +175,10 @@ def population(draw, scheme, nmax, pmax, pmin=2, tmax=3, nmin=2):
         "geno0": geno0, "geno1": geno1, "u": u,
         "beta": [draw(st.sampled_from([0.0, 1.5, -7.25, 100.0])) for _ in range(t)],
         "taxa_named": draw(st.booleans()), "grouped_taxa": draw(st.booleans()), "trait_named": draw(st.booleans()),
+        # the genetic map need not run in the direction of the stored (physical) marker order: a linkage group oriented
+        # against the assembly, or a local inversion.  Only the pairwise distances |g_i - g_j| enter the property.
+        "genpos_order": draw(st.sampled_from(["ascending", "ascending", "descending", "shuffled", "shuffled"])),
+        "genpos_seed": draw(st.integers(0, 2 ** 16)),
     }
 
 
@@ -209,6 +213,7 @@ def multilocus_case(draw):
     else:
         pmax = {"two": 4, "three": 4, "four": 3, "dihybrid": 3}[scheme] if nself == 1 else 3
     pop = draw(population(scheme, {"two": 5, "three": 4, "four": 3, "dihybrid": 4}[scheme], pmax, tmax=2))
+    pop["genpos_order"] = "ascending"      # the gamete enumerator of this sub-check is a chain along the stored order
     k = NPARENT[scheme]
     pop.update({
         "kind": draw(st.sampled_from(["vmat", "vmat", "pcvmat"])) if scheme in ("two", "three") else "vmat",
@@ -369,6 +374,14 @@ def build(case, perm=None):
     p = geno.shape[2]
     chrgrp = numpy.repeat(numpy.array(case["chr_labels"], dtype="int64"), case["runs"])
     genpos = numpy.array(case["genpos"], dtype="float64")
+    order = case.get("genpos_order", "ascending")
+    if order != "ascending":
+        st_ = 0
+        rs = numpy.random.RandomState(case.get("genpos_seed", 0))
+        for rl in case["runs"]:
+            seg = genpos[st_:st_ + rl].copy()
+            genpos[st_:st_ + rl] = seg[::-1] if order == "descending" else seg[rs.permutation(rl)]
+            st_ += rl
     phypos = numpy.arange(1, p + 1, dtype="int64") * 100
     taxa = numpy.array(["tx%02d" % i for i in range(n)], dtype=object) if case["taxa_named"] else None
     taxa_grp = numpy.array([i // 2 for i in range(n)], dtype="int64") if case["grouped_taxa"] else None
@@ -464,6 +477,9 @@ def _labels_common(ctx, case, b):
     ctx.label("coincident_markers", any(b.rmat[i, j] == 0.0 for i in range(b.p) for j in range(i)))
     ctx.label("identical_distinct_taxa", any(numpy.array_equal(b.geno[:, i], b.geno[:, j]) for i in range(b.n) for j in range(i)))
     ctx.label("ntrait>1", b.t > 1)
+    nonmono = any(b.genpos[i] > b.genpos[i + 1] and b.chrgrp[i] == b.chrgrp[i + 1] for i in range(b.p - 1))
+    ctx.label("genetic_map_not_monotone_in_stored_order", nonmono)
+    ctx.label("non_monotone_map_across_chunk_boundary", nonmono and mem is not None and mem < maxrun)
 
 
 # =====================================================================================================================
